@@ -5,3 +5,4 @@ import Bmc.Proofs.C09
 #print axioms Bmc.Proofs.C09.history_strictly_increasing
 #print axioms Bmc.Proofs.C09.sessionless_null
 #print axioms Bmc.Proofs.C09.sessionless_all_null
+#print axioms Bmc.Proofs.C09.sequence_counter_writers
